@@ -781,6 +781,30 @@ pub fn run(ctx: &Ctx) {
         }
         v
     }, check_g1_mul);
+    ctx.cold("cold_start_g1_mul", "G1 fixed-base and variable-base multiplication as the first library operation of a fresh process", || {
+        vec![
+            G1Mul { p: None, scalar: Hex(expand_bytes(0xc13d, 32)) },
+            G1Mul { p: None, scalar: gen::hex32(&BigUint::from(3u32)) },
+            G1Mul { p: Some(G1Rep { k: gen::hex32(&BigUint::from(77u32)), lambda: gen::hex32(&BigUint::from(2u32)) }), scalar: Hex(expand_bytes(0xc13e, 32)) },
+        ]
+    }, check_g1_mul);
+    ctx.cold("cold_start_g2_mul", "G2 fixed-base and variable-base multiplication as the first library operation of a fresh process", || {
+        vec![
+            G2Mul { p: None, scalar: Hex(expand_bytes(0xc13f, 32)) },
+            G2Mul { p: Some(G2Rep { k: gen::hex32(&BigUint::from(5u32)), l0: gen::hex32(&BigUint::from(1u32)), l1: gen::hex32(&BigUint::from(0u32)) }), scalar: Hex(expand_bytes(0xc140, 32)) },
+        ]
+    }, check_g2_mul);
+    ctx.cold("cold_start_tower_ops", "one extension-field operation (every operation x every level) as the first library operation of a fresh process", || {
+        let mut v = Vec::new();
+        for level in [1u8, 2, 4, 12] {
+            for op in 0..T_OPS.len() as u8 {
+                let comp = |t: u64| (0..12u64).map(|i| Hex(expand_bytes((level as u64) << 16 | (op as u64) << 8 | t << 4 | i, 32))).collect::<Vec<_>>();
+                v.push(TOp { level, op, a: comp(1), b: comp(2), e: Hex(expand_bytes(op as u64 ^ 0xc141, 32)) });
+            }
+        }
+        v
+    }, check_top);
+
     ctx.listed("g1_edge_points", "boundary points of G1 (x next to 0, N, p, 2^256-p, powers of two; Montgomery x with all-ones / zero limbs; y with a leading zero byte) in affine and two Jacobian representations: double, add (P1, itself, its negative; both orders), point_mul, encode", || {
         let mut v = Vec::new();
         for point in 0..g1_edge_points().len() {
